@@ -25,9 +25,12 @@ class Files(staticfiles.BaseFiles[WSGIApp]):
         if_none_match: str,
         if_modified_since: str,
     ) -> Response:
-        if self.if_none_match(
-            FileResponse.generate_etag(stat_result), if_none_match
-        ) or self.if_modified_since(stat_result.st_ctime, if_modified_since):
+        # RFC 7232 3.3: If-Modified-Since is ignored when If-None-Match is present
+        if (
+            self.if_none_match(FileResponse.generate_etag(stat_result), if_none_match)
+            if if_none_match
+            else self.if_modified_since(stat_result.st_ctime, if_modified_since)
+        ):
             response = Response(304)
         else:
             response = FileResponse(filepath, stat_result=stat_result)
